@@ -341,7 +341,9 @@ pub mod link {
                 1 => Self::Direct,
                 2 => Self::MultiHop,
                 3 => Self::OpenNet,
-                _ => Self::Unknown(value as u8),
+                // Values that do not fit are not truncated (which could alias a named link type),
+                // they saturate.
+                _ => Self::Unknown(if value < 0 || value > u8::MAX as i32 { u8::MAX } else { value as u8 }),
             }
         }
 
